@@ -147,11 +147,14 @@ class Scen:
             per = []
             for i in range(B):
                 pt = point(i)
-                full = pt + [A(i)]
+                full0 = pt + [A(i)]                 # what the heterogeneity functions see (caller's parameters)
                 ra, rb = A(i), Bv(i)
                 if hetero_spec is not None:
-                    ra = hetero_spec("a", pt, full, A(i), Bv(i), n) if hetero_spec("a", pt, full, A(i), Bv(i), n) is not None else ra
-                    rb = hetero_spec("b", pt, full, A(i), Bv(i), n) if hetero_spec("b", pt, full, A(i), Bv(i), n) is not None else rb
+                    ha = hetero_spec("a", pt, full0, A(i), Bv(i), n)
+                    hb = hetero_spec("b", pt, full0, A(i), Bv(i), n)
+                    ra = ha if ha is not None else ra
+                    rb = hb if hb is not None else rb
+                full = pt + [ra]                    # inside the equation the network is called with the replaced dict
                 args = pt + [n(0, full)] + [n(0, full, (l,)) for l in range(dp)] + [ra, rb]
                 per.append(sum((s["wd"][()] * P.app(self.Rn, cc, (), args) ** 2 for cc in range(self.k)), P.ZERO))
             out["dyn_loss"] = mean(per)
